@@ -1,7 +1,7 @@
 (* C07: the hand-written chunk arithmetic equals the Gallina translation of the source
-   (Generated/SrcArith.v, regenerated from /repo by harness/py2coq.py on every run). *)
+   (Generated/SrcArithC07.v, regenerated from /repo by harness/py2coq.py on every run). *)
 From Coq Require Import ZArith List Lia.
-From Batchie Require Import Model.Chunks Generated.SrcArith.
+From Batchie Require Import Model.Chunks Generated.SrcArithC07.
 Open Scope Z_scope.
 
 Lemma n_lower_is_source n : n_lower n = src_n_lower n.
